@@ -1,5 +1,6 @@
 import Soa.Lemmas.Ledger
 import Soa.Props.C01
+import Soa.Lemmas.Transpose
 /-!
 # C03 — every field value is owned exactly once
 
@@ -12,8 +13,11 @@ says: never two owners, never destroyed twice, never lost (`exactly_once`).
 destruction of the vector conserve ownership on **every** tree, also desynchronised ones
 and also when a field's std call panics half-way.  `push`, `insert`, `replace` (the
 `ptr::read` + `mem::forget` templates) need lockstep: C19 records what happens without it.
-The clone API (`resize`, `extend_from_slice`, `to_vec`) is covered by the correspondence
-only (ledger monitor), not by a theorem here.
+The push loop (`extend`, `FromIterator`) and the clone API built on it since /repo 72750cf
+(`resize`, `extend_from_slice`; `Extend<Ref>` always was) conserve ownership too: the
+container afterwards owns what it owned plus the elements pushed — the value moved in and
+the clones created, each clone counted as a new value (`extend`, `resize_grow`,
+`resize_shrink`, `extendFromSlice`).
 -/
 namespace Soa.C03
 open Soa
@@ -166,6 +170,102 @@ theorem replace (dr : Bool) (i : Nat) (hc : c.lock n) (he : e.lock 1) (hs : c.sa
   | fail _ hfail _ _ _ =>
     have hi : i ≥ n := by simpa [replaceOp] using hfail
     simp [Conserves, held, hi, dropWhole]
+
+/-- **the push loop** (`extend`, `FromIterator`): afterwards the container owns exactly what it
+    owned plus the elements pushed; nothing is destroyed -/
+theorem extend : ∀ (es : List Cols) (c : Cols) (n : Nat), c.lock n → (∀ e ∈ es, e.lock 1 ∧ c.same e) →
+    (Model.extend c es).st.flat.Perm (c.flat ++ (es.map Cols.flat).flatten) ∧
+    (Model.extend c es).ev.drops = [] ∧ held (Model.extend c es) = []
+  | [], c, n, _, _ => by simp [Model.extend, held]
+  | e :: es, c, n, hc, he => by
+    have hp := C01.push hc (he e (by simp)).1 (he e (by simp)).2
+    have hcons := push hc (he e (by simp)).1 (he e (by simp)).2
+    have hpp : (Model.push c e).panicked = false := by
+      rw [hp.panicked]; simp [Spec.push, Spec.std, appendOp]
+    simp only [Model.extend, hpp, Bool.false_eq_true, ↓reduceIte]
+    obtain ⟨m, hm⟩ := hp.lock
+    have ih := extend es (Model.push c e).st m hm (fun x hx =>
+      ⟨(he x (by simp [hx])).1, same_trans _ _ _ (same_symm _ _ hp.same) (he x (by simp [hx])).2⟩)
+    have h1 : (Model.push c e).st.flat.Perm (c.flat ++ e.flat) := by
+      simpa [Conserves, held, Model.push] using hcons
+    refine ⟨?_, ih.2.1, ih.2.2⟩
+    refine ih.1.trans ?_
+    simp only [List.map_cons, List.flatten_cons, ← List.append_assoc]
+    exact List.Perm.append_right _ h1
+
+/-- **growing `resize`**: the container owns what it owned, the value moved in and its
+    `new_len - len - 1` clones — as many new values as clone events -/
+theorem resize_grow (dr : Bool) (k : Nat) (hc : c.lock n) (he : e.lock 1) (hs : c.same e) (hk : k > n) :
+    (Model.resize dr c k e).st.flat.Perm (c.flat ++ e.flat ++ (Model.resize dr c k e).ev.clones) ∧
+    (Model.resize dr c k e).ev.drops = [] := by
+  have h := extend (List.replicate (k - n) e) c n hc (fun x hx => by
+    rw [List.eq_of_mem_replicate hx]; exact ⟨he, hs⟩)
+  unfold Model.resize
+  rw [firstLen_lock c n hc]
+  simp only [hk, ↓reduceIte]
+  refine ⟨h.1.trans ?_, trivial⟩
+  obtain ⟨m, hm⟩ : ∃ m, k - n = m + 1 := ⟨k - n - 1, by omega⟩
+  rw [hm, List.replicate_succ]
+  simp [List.append_assoc, hm]
+
+/-- **shrinking `resize`**: `truncate`, then the value is destroyed -/
+theorem resize_shrink (dr : Bool) (k : Nat) (hc : c.lock n) (hk : k ≤ n) :
+    Conserves c e (Model.resize dr c k e) := by
+  have h := truncate dr c k
+  unfold Model.resize
+  rw [firstLen_lock c n hc]
+  have hk' : ¬ k > n := by omega
+  simp only [hk', ↓reduceIte]
+  unfold Conserves held at h ⊢
+  simp only [flat_const_nil, List.append_nil] at h
+  have hr : (Model.truncate dr c k).ret = none ∧ (Model.truncate dr c k).other = none := by
+    unfold Model.truncate
+    exact (truncateLoop dr k _ c {}).2
+  simp only [hr.1, hr.2, Option.map_none, Option.getD_none, List.append_nil] at h ⊢
+  have : ((Model.truncate dr c k).ev ++ dropWhole dr e).drops = (Model.truncate dr c k).ev.drops ++ e.flat := rfl
+  rw [this, ← List.append_assoc]
+  exact List.Perm.append_right _ h
+
+theorem rows_ids_range (R : List Elem) :
+    ((List.range R.length).map (fun i => ((R.drop i).take 1).map Elem.ids)).flatten.flatten = (R.map Elem.ids).flatten := by
+  have := C01.flatten_rows_range R
+  conv => rhs; rw [← this]
+  simp [List.map_flatten, List.map_map, Function.comp_def]
+
+/-- **`extend_from_slice`**: the container owns what it owned plus one clone of every value of the source -/
+theorem extendFromSlice {d : Cols} {k : Nat} (hc : c.lock n) (hd : d.lock k) (hs : c.same d) :
+    (Model.extendFromSlice c d).st.flat.Perm (c.flat ++ (Model.extendFromSlice c d).ev.clones) ∧
+    (Model.extendFromSlice c d).ev.drops = [] := by
+  have hrows : ∀ x ∈ (List.range k).map (Model.rowCols d), x.lock 1 ∧ c.same x := by
+    intro x hx
+    obtain ⟨i, hi, rfl⟩ := List.mem_map.mp hx
+    have := C01.rowCols_spec hd i (List.mem_range.mp hi)
+    exact ⟨this.1, same_trans _ _ _ hs this.2.1⟩
+  have h := extend ((List.range k).map (Model.rowCols d)) c n hc hrows
+  unfold Model.extendFromSlice
+  rw [firstLen_lock d k hd]
+  refine ⟨h.1.trans (List.Perm.append_left _ ?_), rfl⟩
+  -- the values pushed are, row by row, the values of the source
+  have hl := rows_len k d hd
+  have hrow : ∀ i ∈ List.range k, (Model.rowCols d i).flat = (((d.rows.drop i).take 1).map Elem.ids).flatten := by
+    intro i hi
+    have hs := C01.rowCols_spec hd i (List.mem_range.mp hi)
+    obtain ⟨r, hr1, hr2⟩ := one_row _ hs.1
+    rw [hr2, ← hs.2.2, hr1]; simp
+  have : ((List.range k).map (Model.rowCols d)).map Cols.flat =
+      (List.range k).map (fun i => (((d.rows.drop i).take 1).map Elem.ids).flatten) := by
+    rw [List.map_map]
+    exact List.map_congr_left hrow
+  rw [this]
+  have h2 := rows_ids_range d.rows
+  rw [hl] at h2
+  have h3 : ((List.range k).map (fun i => (((d.rows.drop i).take 1).map Elem.ids).flatten)).flatten =
+      ((List.range k).map (fun i => ((d.rows.drop i).take 1).map Elem.ids)).flatten.flatten := by
+    simp [List.flatten_flatten, List.map_map, Function.comp_def]
+  rw [h3, h2]
+  show ((d.rows.map Elem.ids).flatten).Perm d.flat
+  rw [flat_eq_ids]
+  exact rows_ids_perm k d hd
 
 /-- with distinct ids: nothing has two owners, is destroyed twice, or is both returned and
     destroyed — the three lists on the left are pairwise disjoint and duplicate-free -/
